@@ -33,8 +33,19 @@ RPC = z3.Int("rpc")
 FSIZE = z3.Int(f"size_of_file_{FID}")
 
 
+def header_text(off, width):
+    return STRIP(TXT(z3.IntVal(FID), z3.IntVal(off), z3.IntVal(width)))
+
+
 def hyps(name):
     single = [RPC >= N] if name.endswith("s") else []   # image10s / image11s: one chunk (records_per_chunk >= lines)
+    if name.endswith("q"):
+        # quick variant: the optional header fields are filled and the sample type matches the record type; the header
+        # attributes are extracted from the descriptor alone (extract_attrs(header)), independently of the chunking
+        for off, w in ((440, 8), (448, 4), (452, 4), (456, 4)):
+            t = header_text(off, w)
+            single += [z3.Not(IS_EMPTY(t)), PY_INT(t) != -1]
+        single.append(header_text(428, 4) == ops.str_const("C*8" if name.startswith("image10") else "IU2"))
     return single + [RPC >= 1, N >= 1, R >= 13, FSIZE == 720 + N * R, FSIZE >= 720 + R] + floordiv_axioms()
 
 
@@ -61,6 +72,8 @@ def _unit_image(record_type, single=False):
         f = fs.sym_method(it, "open", ["IMG"], {"mode": "rb"})
         # loop invariant of the chunked metadata pass: before chunk j the file position is 720 + R*min(rpc*j, n)
         if not extra.get("single_chunk"):
+            # prefix sums of the chunk sizes (records before chunk g): min(rpc*g, n)
+            path.prefix_closed_forms = [lambda g: z3.If(RPC * g <= N, RPC * g, N)]
             f.position_invariant = lambda j: 720 + R * z3.If(RPC * j <= N, RPC * j, N)
         extra["it"] = it
         header, metadata = it.call(it.shim(IO.read_metadata), [f, Sym(RPC, int)], {})
@@ -74,6 +87,8 @@ def _unit_image(record_type, single=False):
 def register(UNITS):
     UNITS["image10s"] = (_unit_image(10, True), "ceos_alos2.sar_image.io.read_metadata+metadata.transform_metadata[record type 10, one chunk]")
     UNITS["image11s"] = (_unit_image(11, True), "ceos_alos2.sar_image.io.read_metadata+metadata.transform_metadata[record type 11, one chunk]")
+    UNITS["image10q"] = (_unit_image(10), "ceos_alos2.sar_image.io.read_metadata+metadata.transform_metadata[record type 10]")
+    UNITS["image11q"] = (_unit_image(11), "ceos_alos2.sar_image.io.read_metadata+metadata.transform_metadata[record type 11]")
     UNITS["image10"] = (_unit_image(10), "ceos_alos2.sar_image.io.read_metadata+metadata.transform_metadata[record type 10]")
     UNITS["image11"] = (_unit_image(11), "ceos_alos2.sar_image.io.read_metadata+metadata.transform_metadata[record type 11]")
 
